@@ -293,7 +293,7 @@ pub fn run(ctx: &Ctx, rep: &mut Report) {
         },
         check_corr,
     );
-    let n = ctx.cases(20_000, 400_000);
+    let n = ctx.cases(20_000, 4_000_000);
     run_prop(
         ctx,
         rep,
@@ -356,7 +356,7 @@ pub fn run(ctx: &Ctx, rep: &mut Report) {
         },
     );
     let nstat = reg::statuses().len() as u8;
-    let n = ctx.cases(100_000, 1_500_000);
+    let n = ctx.cases(100_000, 10_000_000);
     run_prop(
         ctx,
         rep,
